@@ -86,6 +86,11 @@ func (op *OptIAPrefix) FromBytes(data []byte) error {
 	op.ValidLifetime = t2.Duration
 
 	length := buf.Read8()
+	if length > 128 {
+		// net.CIDRMask returns nil for such a length: the option would be
+		// re-encoded with prefix length 0 and then lose its prefix.
+		return fmt.Errorf("invalid IPv6 prefix length %d", length)
+	}
 	ip := net.IP(buf.CopyN(net.IPv6len))
 
 	if length == 0 {
